@@ -635,3 +635,78 @@ def run(prog: Program, rep: Report):
     r5_reset(prog, rep, sf)
     r7_reader(prog, rep, sf)
     r8_reopen_appends(prog, rep, sf)
+    r9_no_stale_handles(prog, rep, sf)
+
+
+# ---------------------------------------------------------------------------------------------- R9
+class _Stale(Client):
+    """state = frozenset of handle fields through which a handle was closed and that still refer to it"""
+
+    def __init__(self, f: Func):
+        self.me = f.self_name
+        # loop variables ranging over a field of self:  for h in self.F / self.F.values() / enumerate(self.F)
+        self.var_field: Dict[str, str] = {}
+        for n in walk_own(f.node):
+            if isinstance(n, ast.For):
+                it = n.iter
+                if isinstance(it, ast.Call) and isinstance(it.func, ast.Attribute) and it.func.attr in ("values", "copy"):
+                    it = it.func.value
+                if isinstance(it, ast.Call) and isinstance(it.func, ast.Name) and it.func.id in ("enumerate", "list", "reversed", "tuple") and it.args:
+                    it = it.args[0]
+                d = dotted(it)
+                if d and len(d) == 2 and d[0] == self.me:
+                    for t in ast.walk(n.target):
+                        if isinstance(t, ast.Name):
+                            self.var_field[t.id] = d[1]
+        self.closes = 0
+
+    def should_inline(self, func, call, ctx):
+        return False
+
+    def event(self, kind, node, state, ctx):
+        if kind == "call" and isinstance(node, ast.Call) and isinstance(node.func, ast.Attribute):
+            recv = node.func.value
+            if node.func.attr == "close" and not node.args:
+                d = dotted(recv)
+                if d and len(d) == 2 and d[0] == self.me:
+                    self.closes += 1
+                    return (state | {d[1]},)
+                if isinstance(recv, ast.Name) and recv.id in self.var_field:
+                    self.closes += 1
+                    return (state | {self.var_field[recv.id]},)
+                if isinstance(recv, ast.Subscript):
+                    d = dotted(recv.value)
+                    if d and len(d) == 2 and d[0] == self.me:
+                        self.closes += 1
+                        return (state | {d[1]},)
+            if node.func.attr == "clear" and not node.args:
+                d = dotted(recv)
+                if d and len(d) == 2 and d[0] == self.me:
+                    return (state - {d[1]},)
+        if kind == "store" and isinstance(node, ast.Attribute):
+            d = dotted(node)
+            if d and len(d) == 2 and d[0] == self.me:
+                return (state - {d[1]},)
+        return (state,)
+
+
+def r9_no_stale_handles(prog, rep: Report, sf: StorageFacts):
+    rep.rule("C14.R9", "no closed handle stays cached: on every path through close(), a field through which a file handle was "
+             "closed (directly, or as the container the closed handles come from) is re-assigned or cleared before close() returns",
+             floor=1)
+    f = prog.method(sf.cls, "close")
+    rep.fn(f)
+    client = _Stale(f)
+    it = Interp(prog, client)
+    ex = it.run(f, {frozenset()}, sf.cls)
+    if it.unrecognised:
+        rep.unrec("C14.R9", f, "close", "; ".join(it.unrecognised))
+        return
+    if client.closes == 0:
+        rep.unrec("C14.R9", f, "close", "close() closes no handle held in a field")
+        return
+    stale = sorted({x for st in (ex.normal | ex.ret) for x in st})
+    rep.check("C14.R9", f, "close", not stale, f"{client.closes} close sites; every closed handle field is reset on every path",
+              f"close() can return with self.{stale[0] if stale else ''} still holding closed handles",
+              scenario="a reader-only object (no write file open) is closed and used again: every read hits a cached closed handle "
+                       "and raises ValueError: I/O operation on closed file")
